@@ -56,14 +56,18 @@ def m_uuid_parse(I, path, args):
 
 @R.model(r'^Uuid::as_bytes$', r'^uuid::\w*::?as_bytes$', r'^Uuid::into_bytes$')
 def m_uuid_as_bytes(I, path, args):
+    from .crypto import UuidByte
     u = deref1(args[0])
-    v = Bytes('uuid16', u)
+    v = PyVec([UuidByte(u, i) for i in range(16)])
     return mkref(v) if 'as_bytes' in path else v
 
 
 @R.model(r'^uuid::builder::from_bytes$', r'^uuid::builder::from_slice$')
 def m_uuid_from_bytes(I, path, args):
     b = deref(args[0])
+    from .crypto import UuidByte
+    if isinstance(b, (PyVec, PySlice)) and len(b.items) == 16 and all(isinstance(x, UuidByte) and x.i == k and x.u is b.items[0].u for k, x in enumerate(b.items)):
+        return b.items[0].u if 'from_bytes' in path else Ok(b.items[0].u)
     if isinstance(b, Bytes) and b.tag == 'uuid16':
         return b.payload if 'from_bytes' in path else Ok(b.payload)
     if isinstance(b, (PyVec, PySlice)) and len(b.items) == 16 and all(isinstance(x, int) for x in b.items):
